@@ -897,6 +897,9 @@ def run(ctx):
         sigs.add('h' + json.dumps(hist))
 
     # ---- decide ----
+    if tie:
+        ctx.notes.append('tie: ' + tie[:600])
+        ctx.log('tie broken: ' + ' '.join(tie.split())[:300])
     if tie and not found_concrete:
         if not search(ctx, tie):
             ctx.violation('tie-broken', tie[:300], dict(kind='tie', detail=tie, theorem='props/C17.v'), nofail=True)
